@@ -448,10 +448,13 @@ fn used_type_params<'ty, 'out>(
         }) => {
             let mut inner = HashSet::new();
             used_type_params(&mut inner, &qself.ty, is_type_param);
-            if !inner.is_empty() {
+            // Only a projection out of the parameter itself (or out of one of its associated
+            // types) has to be bound; everything else is normalized through the impl of the
+            // type it is projected out of.
+            if inner.contains(&*qself.ty) {
                 out.insert(ty);
-                out.extend(inner);
             }
+            out.extend(inner);
         }
         _ => (),
     }
